@@ -101,6 +101,7 @@ struct lib {
 	ArEntry		arent;
 	BPack(Bool)	rdOnly;
 	BPack(Bool)	intLoaded;	/* Already loaded by interpreter? */
+	BPack(Bool)	wrOpen;		/* Opened for writing by libWrite? */
 	String		idName;		/* Name of initialiser */
 	FILE *		file;
 	Offset		offset;		/* Offset of hdr in file. */
